@@ -43,7 +43,7 @@ CORE_ONE = [
     ["float", "dc", "double"], ["fc", "object", "dc"], ["int", "fc", "long"], ["fc", "list", "dc"],
     ["double", "object"], ["list", "object"], ["int"], ["object"], ["long", "double", "dc", "list", "object"],
     ["long", "mvd", "int"], ["mvd", "mvi", "mvd2", "object"], ["mvf", "mvl"], ["double", "mvd"], ["int", "mvi", "object"],
-    ["mvd2", "double", "mvd", "float"],
+    ["mvd2", "double", "mvd", "float"], ["mvd", "mvf", "object"], ["mvl", "mvi"], ["fc", "mvi", "dc"],
 ]
 CORE_TWO = [
     (["int"], ["double", "object"]), (["int", "long"], ["float", "double"]), (["int", "double"], ["mvd", "mvi"]),
